@@ -100,7 +100,7 @@ theorem opGr_fastpath : OpFastpathIrrelevant opGr := by
 
 /-! ### `op_add` -/
 
-theorem limbs_natCast (n : Nat) : limbs (n : Int) = (natBE n).length := by
+theorem fp_limbs_natCast (n : Nat) : limbs (n : Int) = (natBE n).length := by
   simp [limbs]
 
 /-- what the u64 fast path of `op_add` computes is what the generic loop computes -/
@@ -121,7 +121,7 @@ theorem addFast_generic (nm : Bool) (cpa cpb mc : Nat) (acc : Int) (l : List Val
     | atom b inl =>
       cases inl
       · simp [addFast, node]
-      · simp only [addFast, addGeneric, node, limbs_natCast]
+      · simp only [addFast, addGeneric, node, fp_limbs_natCast]
         cases hc : checkCost (if nm = true then cost + cpa + max (natBE total).length (lenForValue (beNat b)) * cpb
             else cost + cpa + lenForValue (beNat b) * cpb) mc with
         | error e => simp
@@ -153,14 +153,14 @@ theorem opAdd_fastpath : OpFastpathIrrelevant opAdd := by
 
 /-! ### `op_subtract` -/
 
-theorem checkCost_mono {a b m : Nat} (hab : a ≤ b) (h : checkCost a m = .error .CostExceeded) :
+theorem fp_checkCost_mono {a b m : Nat} (hab : a ≤ b) (h : checkCost a m = .error .CostExceeded) :
     checkCost b m = .error .CostExceeded := by
   unfold checkCost at *
   split at h
   · rw [if_pos (by omega)]
   · cases h
 
-theorem checkCost_err {a m : Nat} {e : Err} (h : checkCost a m = .error e) : e = .CostExceeded := by
+theorem fp_checkCost_err {a m : Nat} {e : Err} (h : checkCost a m = .error e) : e = .CostExceeded := by
   unfold checkCost at h; split at h <;> cases h; rfl
 
 theorem i64Bytes_enc (v : Int) (h1 : I64_MIN ≤ v) (h2 : v ≤ I64_MAX) : i64Bytes v = encodeInt v := by
@@ -199,7 +199,7 @@ theorem subFast_generic (nm : Bool) (cpa cpb mc : Nat) (acc : Int) (l : List Val
         | error e =>
           simp only []
           cases hc1 : checkCost (cost + cpa) mc with
-          | error e1 => rw [checkCost_err hc, checkCost_err hc1]
+          | error e1 => rw [fp_checkCost_err hc, fp_checkCost_err hc1]
           | ok u => simp only []
         | ok u =>
           simp only []
